@@ -87,7 +87,7 @@ def gen_history(rng: Any, services: dict[int, dict[int, Any]], n: int) -> list[d
             op["pdu"] = bytes([0x27, sub | (0x80 if rng.random() < 0.15 else 0)]).hex()
             ops.append(op)
             k = rng.random()
-            ops.append({"dyn": "sendkey", "sub": sub + 1, "wrong": k < 0.25, "suppress": rng.random() < 0.2, "gap": rng.choice([0, 0, 0.5])})
+            ops.append({"dyn": "sendkey", "sub": sub + 1, "wrong": k < 0.25, "suppress": rng.random() < 0.2, "gap": rng.choice([0, 0, 0, 0.5, 11.0, 12.5])})
             continue
         elif r < 0.66:
             op["pdu"] = bytes([0x11, rng.choice([1, 1, 2, 3, 4, 0x81, 0x7F])]).hex()
